@@ -397,7 +397,11 @@ func c11Run(e *core.Env) {
 			for _, neg := range []bool{false, true} {
 				x := FinBig(cube, 3*j, neg)
 				e.State()
-				for _, p := range []uint32{1, 2, 3, 4, 5, 9} {
+				ps := []uint32{1, 2, 3, 4, 5, 9}
+				if m%17 == 0 || m < 40 {
+					ps = append(ps, 16, 19, 20, 34, 39) // working precisions across the 64- and 128-bit coefficient boundaries
+				}
+				for _, p := range ps {
 					cc := MkCtx(p, -6143, 6144, apd.RoundHalfEven, 0)
 					cls, triv, msg := c11Cbrt(x, cc)
 					report("Cbrt", x, cc, cls, triv, msg)
